@@ -173,9 +173,12 @@ pub fn check_conn(or: &mut Oracle, log: &Log, prop: &str, plans: &[ReqPlan], tr:
     }
 }
 
-pub fn conn_op(plans: &[ReqPlan], b: usize, mc: usize, end: &str, rd: &str, wr: &str, fl: &str, stop: &str, gates: bool) -> String {
+pub fn conn_op(plans: &[ReqPlan], b: usize, mc: usize, end: &str, rd: &str, wr: &str, fl: &str, stop: &str, gates: bool) -> String { conn_op_skip(plans, b, mc, end, rd, wr, fl, stop, gates, None) }
+/// `skip`: a request whose handler never runs (aborted during Params) has no script: scripts are consumed per handler invocation
+pub fn conn_op_skip(plans: &[ReqPlan], b: usize, mc: usize, end: &str, rd: &str, wr: &str, fl: &str, stop: &str, gates: bool, skip: Option<usize>) -> String {
     let segs: Vec<String> = plans.iter().enumerate().map(|(i, p)| { let h = hexd(&ser_all(&p.recs)); if i == 0 || !gates { h } else { format!("{h}@I{}", plans[i - 1].pre.id) } }).collect();
-    let hs: Vec<String> = plans.iter().map(|p| p.script.clone()).collect();
+    let mut hs: Vec<String> = plans.iter().enumerate().filter(|(i, _)| Some(*i) != skip).map(|(_, p)| p.script.clone()).collect();
+    if hs.is_empty() { hs.push("-".into()); }
     format!("t.run B={b} mc={mc} in={} end={end} rd={rd} wr={wr} fl={fl} stop={stop} h={}", segs.join(","), hs.join(";"))
 }
 
@@ -310,4 +313,218 @@ fn gate_str(nsegs: usize, ends_before: usize, after_query: bool) -> String {
     if nsegs == 0 { return String::new(); }
     // after the query: wait for the reply record as well as for the EndRequests so far
     if after_query { format!("@R{}", ends_before * 3 + 1) } else { format!("@E{ends_before}") }
+}
+
+// =====================================================================================================  C11
+pub fn run_c11(ctx: &mut Ctx) {
+    let mut log = Log::new(&ctx.dir);
+    let mut im = Impl::new();
+    let mut or = Oracle::new("C11",
+        "an AbortRequest (body 0..64 bytes, padding 0..255) for the request in progress placed after every record position of the preamble and of each input stream, or for a foreign id; handlers that read to the end / read a little / buffered-read / do not read / are already past end-of-stream, propagating or ignoring the read error and returning their own status; \
+         followed by 0..2 further requests on the same connection; C07 transport patterns. Oracle: record decoder on the byte log + handler log. Non-trivial: all; distinct by case");
+    let mut rng = ctx.rng.fork();
+    for ci in 0..ctx.n(400, 8000) {
+        let k = 1 + rng.usize_below(3);
+        let mc = 1 + rng.usize_below(50);
+        let b = *rng.pick(&[128usize, 256, 8192]);
+        let nl = rng.below(3);
+        let mut plans: Vec<ReqPlan> = (0..k).map(|_| gen_req(&mut rng, true, nl, mc, b, false)).collect();
+        let j = rng.usize_below(k);
+        let foreign = rng.chance(1, 6);
+        let pos = 1 + rng.usize_below(plans[j].recs.len());       // after at least the first record
+        // the aborted request's own BeginRequest must be before `pos` for the abort to refer to a request in progress
+        let begin_idx = plans[j].recs.iter().position(|r| r.rtype == T_BEGIN && r.id == plans[j].pre.id && r.content.len() == 8 && (1..=3).contains(&u16::from_be_bytes([r.content[0], r.content[1]]))).unwrap();
+        let pos = pos.max(begin_idx + 1);
+        let in_preamble = pos < plans[j].pre_len;     // before the empty Params record was sent
+        let aid = if foreign { plans[j].pre.id ^ 0x5555 } else { plans[j].pre.id };
+        let abort = Rec::new(T_ABORT, aid, rng.bytes(rng.clone().usize_below(65)), pad_bytes(&mut rng));
+        // handler behaviour for the aborted request
+        let streams = role_streams(plans[j].pre.role);
+        let hmode = rng.below(6);
+        let own_status = rng.chance(1, 2);
+        let (script, reads): (String, bool) = match hmode {
+            0 | 1 => { let pre = streams.iter().enumerate().map(|(i, s)| if i == 0 { "R".to_string() } else { format!("s{s},R") }).collect::<Vec<_>>().join(","); (if pre.is_empty() { "-".into() } else { pre }, true) }
+            2 => ("r4,r4,r4,r400".into(), true),
+            3 => ("f,c3,f,c999,f,c999".into(), true),
+            _ => ("-".into(), false),
+        };
+        let ignore = hmode == 1 || (hmode >= 2 && rng.chance(1, 2));
+        let tail = if own_status { ",Xcomplete:77" } else { "" };
+        let script = if script == "-" { if own_status { "Xcomplete:77".to_string() } else { "-".into() } } else { format!("{}{script}{tail}", if ignore { "~" } else { "" }) };
+        if !foreign {
+            plans[j].script = script.clone();
+            plans[j].recs.truncate(pos);
+            plans[j].recs.push(abort.clone());
+        } else { plans[j].recs.insert(pos, abort.clone()); }
+        let op = conn_op_skip(&plans, b, mc, "pend", &rd_script(&mut rng, 40), &wr_script(&mut rng, 40, false), "-", "none", true, if in_preamble && !foreign { Some(j) } else { None });
+        log.case(&format!("c11-{ci}"));
+        let o = ex(&mut log, &mut im, &op);
+        let tr = parse_trace(&o);
+        or.count(if foreign { "abort=foreign-id" } else if in_preamble { "abort=during-params" } else { "abort=during-streams" });
+        if foreign {
+            // ignored entirely
+            if tr.fin != "STALL" { or.fail(format!("connection ended with {} after an AbortRequest for a foreign id", tr.fin), log.replay_block(), "C11:foreign-not-ignored".into()); }
+            check_conn(&mut or, &log, "C11", &plans, &tr, false);
+            or.eval((ci, &op), true);
+            continue;
+        }
+        if tr.fin != "STALL" && tr.fin != "RET" { or.fail(format!("connection task ended with {}", tr.fin), log.replay_block(), format!("C11:fin-{}", tr.fin)); }
+        let (recs_out, _, bad) = decode_log(&tr.wlog);
+        if bad.is_some() { or.fail("byte log is not a record sequence".into(), log.replay_block(), "C11:log-malformed".into()); continue; }
+        let ends: Vec<&Rec> = recs_out.iter().filter(|r| r.rtype == T_END && r.id == aid).collect();
+        if ends.len() != 1 { or.fail(format!("{} EndRequest records for the aborted request (exactly one expected; abort {})", ends.len(), if in_preamble { "during Params" } else { "during the input streams" }), log.replay_block(), "C11:endrequest-count".into()); or.eval((ci, &op), true); continue; }
+        let body = &ends[0].content;
+        let app = u32::from_be_bytes([body[0], body[1], body[2], body[3]]); let ps = body[4];
+        let hs: Vec<usize> = tr.events.iter().enumerate().filter(|(_, e)| e.starts_with("HS(")).map(|(i, _)| i).collect();
+        if in_preamble {
+            // at once, without invoking the handler
+            let expected_hs = k - 1;
+            if hs.len() != expected_hs { or.fail(format!("abort during Params: {} handler invocations for {} other request(s)", hs.len(), expected_hs), log.replay_block(), "C11:handler-invoked".into()); }
+            if ps != 0 || app != 0 { or.fail(format!("abort during Params answered with app status {app}, protocol status {ps}"), log.replay_block(), "C11:status".into()); }
+        } else {
+            if ps != 0 { or.fail(format!("aborted request answered with protocol status {ps} (RequestComplete expected)"), log.replay_block(), "C11:status".into()); }
+            // what did the handler see?
+            let saw_abort = tr.events.iter().any(|e| e.contains("!aborted"));
+            let he_j = tr.events.iter().filter(|e| e.starts_with("HE(")).nth(j).cloned().unwrap_or_default();
+            let abrt = u32::from_be_bytes(*b"ABRT");
+            let exp_app = if he_j == "HE(err:aborted)" { abrt } else if own_status { 77 } else { 0 };
+            if app != exp_app { or.fail(format!("aborted request: app status {app:#x}, expected {exp_app:#x} (handler ended with {he_j}, saw abort error: {saw_abort})"), log.replay_block(), "C11:app-status".into()); }
+            if reads && !ignore && saw_abort && he_j != "HE(err:aborted)" { or.fail(format!("handler propagating the abort error ended with {he_j}"), log.replay_block(), "C11:propagation".into()); }
+            // input delivered before the error is a prefix of what was sent
+            for e in &tr.events { if let Some(rest) = e.strip_prefix("R!aborted:") { let data = unhex(rest.split(':').nth(1).unwrap_or("-")); if !plans[j].contents.iter().any(|(_, c)| c.starts_with(&data)) { or.fail("bytes delivered before the abort error are not a prefix of the stream".into(), log.replay_block(), "C11:prefix".into()); } } }
+        }
+        // the connection stays usable: every later request is served and answered
+        for (i, p) in plans.iter().enumerate().skip(j + 1) {
+            let n = recs_out.iter().filter(|r| r.rtype == T_END && r.id == p.pre.id).count();
+            if n != 1 { or.fail(format!("request {} after the aborted one got {} EndRequest records", i + 1, n), log.replay_block(), "C11:next-request".into()); }
+        }
+        let exp_hs: Vec<String> = plans.iter().enumerate().filter(|(i, _)| !(in_preamble && *i == j)).map(|(_, p)| format!("HS({},{},{})", p.pre.role, p.pre.flags, env_fmt(&spec_env(&p.pre.pairs)))).collect();
+        let got_hs: Vec<String> = hs.iter().map(|&i| tr.events[i].clone()).collect();
+        if got_hs != exp_hs { or.fail(format!("handler invocations after an abort differ: {} seen, {} expected", got_hs.len(), exp_hs.len()), log.replay_block(), "C11:handler-sequence".into()); }
+        or.eval((ci, &op), true);
+        if ci == 0 { or.sample(format!("abort after record {pos} of request {} ({}), handler `{script}`", j + 1, if in_preamble { "preamble" } else { "streams" })); }
+    }
+    or.count_n("corr_ops", log.nops);
+    log.finish();
+    or.write(&ctx.dir);
+}
+
+// =====================================================================================================  C12
+pub fn run_c12(ctx: &mut Ctx) {
+    let mut log = Log::new(&ctx.dir);
+    let mut im = Impl::new();
+    let mut or = Oracle::new("C12",
+        "for each scripted connection (1..2 requests, C07 handler family incl. propagating and ignoring handlers): EOF injected at every byte offset 0..N of the input (quick: strided + all record boundaries ±1), a read error at every read-call index, a write error and a zero-length write at every write-call index, \
+         combined with the C07 read/write chunking patterns. Oracle: the task returns (never panics, stalls or spins); no handler for an incomplete preamble; no successful short read-to-end; nothing accepted after a failed write for a propagating handler; the log is a prefix of a record sequence. Non-trivial: all; distinct by (connection, fault)");
+    let mut rng = ctx.rng.fork();
+    let thorough = ctx.tier_thorough || ctx.widen;
+    for ci in 0..ctx.n(25, 300) {
+        let k = 1 + rng.usize_below(2);
+        let mc = 1 + rng.usize_below(50);
+        let b = *rng.pick(&[128usize, 1024]);
+        let nl = rng.below(3);
+        let plans: Vec<ReqPlan> = (0..k).map(|_| { let mut p = gen_req(&mut rng, true, nl, mc, b, false); if rng.chance(1, 3) && p.script != "-" && !p.script.starts_with('~') && !p.opens { p.script = format!("~{}", p.script); } p }).collect();
+        let wire: Vec<u8> = plans.iter().flat_map(|p| ser_all(&p.recs)).collect();
+        let hs: String = plans.iter().map(|p| p.script.clone()).collect::<Vec<_>>().join(";");
+        let rd = rd_script(&mut rng, 30); let wr = wr_script(&mut rng, 30, false);
+        // fault-free baseline: number of read / write calls
+        log.case(&format!("c12-{ci}-base"));
+        let base = ex(&mut log, &mut im, &format!("t.run B={b} mc={mc} in={} end=eof rd={rd} wr={wr} fl=- stop=none h={hs}", hexd(&wire)));
+        let trb = parse_trace(&base);
+        let nreads = trb.events.iter().filter(|e| e.starts_with('R') && e.contains(':') && !e.starts_with("R=") && !e.starts_with("R!")).count();
+        let nwrites = trb.events.iter().filter(|e| (e.starts_with('W') || e.starts_with('V')) && e.contains(':') && !e.starts_with("W=") && !e.starts_with("W!")).count();
+        // preamble end offsets
+        let mut pre_ends = vec![]; let mut off = 0;
+        for p in &plans { let pl: usize = p.recs[..p.pre_len].iter().map(|r| r.ser().len()).sum(); pre_ends.push(off + pl); off += ser_all(&p.recs).len(); }
+        let mut faults: Vec<(String, String)> = vec![];   // (kind, op)
+        // EOF at byte offsets
+        let mut offs: Vec<usize> = if thorough { (0..=wire.len()).collect() } else { let mut v: Vec<usize> = (0..=wire.len()).step_by(7.max(wire.len() / 40)).collect(); let mut p = 0; for pl in &plans { for r in &pl.recs { p += r.ser().len(); v.extend([p.saturating_sub(1), p, (p + 1).min(wire.len()), (p + 8).min(wire.len())]); } } v.sort(); v.dedup(); v };
+        offs.retain(|&o| o <= wire.len());
+        for o in offs { faults.push((format!("eof@{o}"), format!("t.run B={b} mc={mc} in={} end=eof rd={rd} wr={wr} fl=- stop=none h={hs}", hexd(&wire[..o])))); }
+        let set_nth = |script: &str, n: usize, what: &str| -> String { let mut v: Vec<String> = if script == "-" { vec![] } else { script.split(',').map(|s| s.to_string()).collect() }; while v.len() <= n { v.push("A".into()); } v[n] = what.into(); v.join(",") };
+        let step = if thorough { 1 } else { (nreads / 12).max(1) };
+        for i in (0..nreads).step_by(step) { faults.push((format!("readerr@{i}"), format!("t.run B={b} mc={mc} in={} end=eof rd={} wr={wr} fl=- stop=none h={hs}", hexd(&wire), set_nth(&rd, i, "E")))); }
+        let step = if thorough { 1 } else { (nwrites / 12).max(1) };
+        for i in (0..nwrites).step_by(step) { for what in ["E", "Z"] { faults.push((format!("write{what}@{i}"), format!("t.run B={b} mc={mc} in={} end=eof rd={rd} wr={} fl=- stop=none h={hs}", hexd(&wire), set_nth(&wr, i, what)))); } }
+        for (fi, (kind, op)) in faults.iter().enumerate() {
+            log.case(&format!("c12-{ci}-{fi}"));
+            let o = ex(&mut log, &mut im, op);
+            let tr = parse_trace(&o);
+            or.count(&format!("fault={}", kind.split('@').next().unwrap()));
+            if tr.fin != "RET" { or.fail(format!("fault {kind}: the connection task ended with {} instead of returning", tr.fin), log.replay_block(), format!("C12:fin-{}", tr.fin)); }
+            let nhs = tr.events.iter().filter(|e| e.starts_with("HS(")).count();
+            if let Some(o) = kind.strip_prefix("eof@") { let o: usize = o.parse().unwrap(); let complete = pre_ends.iter().filter(|&&e| e <= o).count(); if nhs > complete { or.fail(format!("EOF after {o} bytes: {nhs} handler invocation(s) but only {complete} complete preamble(s) arrived"), log.replay_block(), "C12:handler-for-incomplete-preamble".into()); } }
+            // a handler waiting for input that never comes gets an error, never a successful short read
+            let mut hi = 0;
+            for e in &tr.events {
+                if e.starts_with("HS(") { hi += 1; }
+                if let Some(rest) = e.strip_prefix("R=") { let data = unhex(rest.split(':').nth(1).unwrap_or("-")); if let Some(p) = plans.get(hi.max(1) - 1) { if !p.contents.iter().any(|(_, c)| c == &data || c.ends_with(&data)) { or.fail(format!("fault {kind}: read-to-end succeeded with {} bytes although the stream was cut short", data.len()), log.replay_block(), "C12:short-read-ok".into()); } } }
+            }
+            // after a failed write nothing more is accepted when the handler propagates errors
+            if kind.starts_with("write") {
+                let mut failed = false; let mut in_ignoring_handler = false; let mut hi2 = 0usize;
+                for e in &tr.events {
+                    if e.starts_with("HS(") { hi2 += 1; in_ignoring_handler = plans.get(hi2 - 1).map_or(false, |p| p.script.starts_with('~')); }
+                    if e.starts_with("HE(") { in_ignoring_handler = false; }
+                    let is_w = (e.starts_with('W') || e.starts_with('V')) && e.contains(':') && !e.starts_with("W=") && !e.starts_with("W!");
+                    if is_w { let res = e.rsplit(':').next().unwrap(); if failed && res.parse::<usize>().map_or(false, |n| n > 0) { or.fail(format!("fault {kind}: bytes were written after the failed write"), log.replay_block(), "C12:write-after-failure".into()); break; }
+                        if res == "E" || res == "Z" { if in_ignoring_handler { break; }   // the clause is about handlers that propagate I/O errors
+                            failed = true; } }
+                }
+            }
+            let (_, _, bad) = decode_log(&tr.wlog);
+            if let Some(bm) = bad { or.fail(format!("fault {kind}: bytes written are not a prefix of a record sequence: {bm}"), log.replay_block(), "C12:log-malformed".into()); }
+            or.eval((ci, kind), true);
+        }
+        if ci == 0 { or.sample(format!("connection of {k} request(s), {} input bytes, {nreads} reads, {nwrites} writes -> {} fault runs", wire.len(), faults.len())); }
+    }
+    or.count_n("corr_ops", log.nops);
+    log.finish();
+    or.write(&ctx.dir);
+}
+
+// =====================================================================================================  C14 (a): shutdown vs the connection task
+pub fn c14_conn(ctx: &mut Ctx, log: &mut Log, im: &mut Impl, or: &mut Oracle) {
+    let mut rng = ctx.rng.fork();
+    let thorough = ctx.tier_thorough || ctx.widen;
+    for ci in 0..ctx.n(30, 400) {
+        let k = 1 + rng.usize_below(3);
+        let mc = 1 + rng.usize_below(50);
+        let b = *rng.pick(&[128usize, 1024]);
+        let plans: Vec<ReqPlan> = (0..k).map(|_| { let nl = rng.below(2); gen_req(&mut rng, true, nl, mc, b, false) }).collect();
+        let rd = rd_script(&mut rng, 40); let wr = wr_script(&mut rng, 40, false);
+        let base_op = conn_op(&plans, b, mc, "pend", &rd, &wr, "-", "none", true);
+        log.case(&format!("c14-{ci}-base"));
+        let base = ex(log, im, &base_op);
+        let trb = parse_trace(&base);
+        let npolls = trb.events.iter().filter(|e| e.starts_with('|')).count();
+        let stops: Vec<usize> = if thorough { (0..=npolls + 1).collect() } else { let mut v: Vec<usize> = (0..=npolls + 1).step_by((npolls / 10).max(1)).collect(); v.extend([0, 1, npolls, npolls + 1]); v.sort(); v.dedup(); v };
+        for s in stops {
+            log.case(&format!("c14-{ci}-stop{s}"));
+            let o = ex(log, im, &conn_op(&plans, b, mc, "pend", &rd, &wr, "-", &s.to_string(), true));
+            let tr = parse_trace(&o);
+            if tr.fin != "RET" { or.fail(format!("shutdown requested before poll {s}: the connection task ended with {} instead of returning", tr.fin), log.replay_block(), format!("C14:conn-fin-{}", tr.fin)); }
+            let mark = tr.events.iter().position(|e| *e == format!("|{s}"));
+            if let Some(m) = mark {
+                if tr.events[m..].iter().any(|e| e.starts_with("HS(")) { or.fail(format!("a handler invocation began in a scheduling step that started after shutdown was requested (poll {s})"), log.replay_block(), "C14:handler-after-stop".into()); }
+                let nhs = tr.events[..m].iter().filter(|e| e.starts_with("HS(")).count();
+                let nhe = tr.events[..m].iter().filter(|e| e.starts_with("HE(")).count();
+                // a request is in flight until its close() has written the whole epilogue
+                let written_before: usize = tr.events[..m].iter().filter(|e| (e.starts_with('W') || e.starts_with('V')) && e.contains(':') && !e.starts_with("W=") && !e.starts_with("W!")).filter_map(|e| e.rsplit(':').next().unwrap().parse::<usize>().ok()).sum();
+                let closing = nhe > 0 && nhs == nhe && { let (recs_all, _, _) = decode_log(&tr.wlog); let mut off = 0usize; let mut end_off = None; for r in &recs_all { off += r.ser().len(); if r.rtype == T_END && r.id == plans[nhe - 1].pre.id { end_off = Some(off); } } end_off.map_or(true, |e| written_before < e) };
+                let in_flight = nhs > nhe || closing;
+                if in_flight {
+                    // the running request completes normally, including its EndRequest
+                    let idx = nhs - 1;
+                    let (recs_out, _, _) = decode_log(&tr.wlog);
+                    let n = recs_out.iter().filter(|r| r.rtype == T_END && r.id == plans[idx].pre.id).count();
+                    if n != 1 && matches!(plans[idx].ret, Ret::Ok(..)) { or.fail(format!("request in flight when shutdown was requested got {n} EndRequest records"), log.replay_block(), "C14:in-flight-not-completed".into()); }
+                } else if tr.events[m..].iter().any(|e| e.starts_with('R') && e.contains(':') && !e.starts_with("R=") && !e.starts_with("R!")) {
+                    or.fail(format!("idle connection read from the transport after shutdown was requested (poll {s})"), log.replay_block(), "C14:idle-read-after-stop".into());
+                }
+            }
+            or.eval((ci, s), true);
+            or.count("conn_stop_points");
+        }
+    }
 }
